@@ -373,7 +373,7 @@ class Alg:
         if self.is_zero_nf():
             raise DomainViolation(f"{what} by an expression that is identically zero at {_caller_site()}")
         if not self.is_const():
-            w.require(self, '!=', f"{what}: divisor non-zero")
+            w.require(self._modsq_if_complex(), '!=', f"{what}: divisor non-zero")
         elif abs(self.val) == 0:
             raise DomainViolation(f"{what} by zero at {_caller_site()}")
         return Alg._mk(w, self.den, self.num, 1 / self.val)
@@ -443,7 +443,7 @@ class Alg:
         # record exactly the semantic branch condition (the tested relation or its negation), so that the
         # union of explored paths can cover the whole precondition
         if rel in ('==', '!='):
-            self.w.record_path(d, '!=')
+            self.w.record_path(d._modsq_if_complex(), '!=')
             return rel == '!='
         truth = {'<': v < 0, '<=': v <= 0, '>': v > 0, '>=': v >= 0}[rel]
         neg = {'<': '>=', '<=': '>', '>': '<=', '>=': '<'}[rel]
@@ -549,6 +549,13 @@ class Alg:
                     if i < p.ring.ngens and any(m[i] for m in p.keys()):
                         return True
         return False
+
+    def _modsq_if_complex(self):
+        """a real Alg that vanishes exactly when self does (|z|^2 for complex values)"""
+        if not self._has_I():
+            return self
+        re, im = self.re_im()
+        return re * re + im * im
 
     def conjugate(self):
         w = self.w
